@@ -157,7 +157,30 @@ static void calc_case(uint64_t index)
     char op = k == 0 ? (hv_chance(&R, 1, 6) ? "~x^"[hv_below(&R, 3)] : 0) : "\0\0~x^"[hv_below(&R, 5)];
     if (op) hv_str_add(&tx, "%c", op);
     unsigned kind = (unsigned)hv_below(&R, 10);
-    if (kind < 7) { if (gen_chain((unsigned)hv_below(&R, NL), NULL, 2, &tx, term, &nested) < 0) { hv_str_free(&tx); continue; } }
+    unsigned npci = hwloc_get_nbobjs_by_depth(T, HWLOC_TYPE_DEPTH_PCI_DEVICE), nosd = hwloc_get_nbobjs_by_depth(T, HWLOC_TYPE_DEPTH_OS_DEVICE);
+    if (kind == 9 && (npci || nosd)) {
+      /* I/O locations (hwloc(7)): pci=<busid>, os=<name>, pci:<index>, os:<index>, pci[<vendor>:]:<index>. The set of an I/O object is the
+       * cpuset of its first non-I/O ancestor */
+      unsigned w = (unsigned)hv_below(&R, 5); hwloc_obj_t io = NULL;
+      if ((w == 0 || w == 2 || w == 4) && !npci) w = 1; if ((w == 1 || w == 3) && !nosd) w = 0;
+      if (w == 0) { io = hwloc_get_obj_by_depth(T, HWLOC_TYPE_DEPTH_PCI_DEVICE, (unsigned)hv_below(&R, npci));
+        if (io->attr->pcidev.domain || hv_chance(&R, 1, 2)) hv_str_add(&tx, "pci=%04x:%02x:%02x.%01x", io->attr->pcidev.domain, io->attr->pcidev.bus, io->attr->pcidev.dev, io->attr->pcidev.func);
+        else hv_str_add(&tx, "pci=%02x:%02x.%01x", io->attr->pcidev.bus, io->attr->pcidev.dev, io->attr->pcidev.func); }
+      else if (w == 1) { io = hwloc_get_obj_by_depth(T, HWLOC_TYPE_DEPTH_OS_DEVICE, (unsigned)hv_below(&R, nosd));
+        int unique = io->name && io->name[0] && !strpbrk(io->name, " :=,[]~^"); for (unsigned q = 0; unique && q < nosd; q++) { hwloc_obj_t o2 = hwloc_get_obj_by_depth(T, HWLOC_TYPE_DEPTH_OS_DEVICE, q); if (o2 != io && o2->name && !strcmp(o2->name, io->name)) unique = 0; }
+        if (unique) hv_str_add(&tx, "os=%s", io->name); else { unsigned li = io->logical_index; hv_str_add(&tx, "os:%u", li); } }
+      else if (w == 2) { unsigned li = (unsigned)hv_below(&R, npci); io = hwloc_get_obj_by_depth(T, HWLOC_TYPE_DEPTH_PCI_DEVICE, li); hv_str_add(&tx, "pci:%u", li); }
+      else if (w == 3) { unsigned li = (unsigned)hv_below(&R, nosd); io = hwloc_get_obj_by_depth(T, HWLOC_TYPE_DEPTH_OS_DEVICE, li); hv_str_add(&tx, "os:%u", li); }
+      else { hwloc_obj_t any = hwloc_get_obj_by_depth(T, HWLOC_TYPE_DEPTH_PCI_DEVICE, (unsigned)hv_below(&R, npci)); unsigned vend = any->attr->pcidev.vendor_id, cnt = 0, pick;
+        for (unsigned q = 0; q < npci; q++) if (hwloc_get_obj_by_depth(T, HWLOC_TYPE_DEPTH_PCI_DEVICE, q)->attr->pcidev.vendor_id == vend) cnt++;
+        pick = (unsigned)hv_below(&R, cnt); cnt = 0;
+        for (unsigned q = 0; q < npci; q++) { hwloc_obj_t o2 = hwloc_get_obj_by_depth(T, HWLOC_TYPE_DEPTH_PCI_DEVICE, q); if (o2->attr->pcidev.vendor_id == vend && cnt++ == pick) io = o2; }
+        hv_str_add(&tx, "pci[%04x:]:%u", vend, pick); }
+      hwloc_obj_t anc = hwloc_get_non_io_ancestor_obj(T, io);
+      if (!anc || !anc->cpuset) { hv_str_free(&tx); continue; }
+      hwloc_bitmap_copy(term, anc->cpuset); hv_stat("calc.io_location_terms", 1);
+    }
+    else if (kind < 7) { if (gen_chain((unsigned)hv_below(&R, NL), NULL, 2, &tx, term, &nested) < 0) { hv_str_free(&tx); continue; } }
     else if (kind == 7) { hv_str_add(&tx, "%s", hv_chance(&R, 1, 2) ? "all" : "root"); hwloc_bitmap_copy(term, hwloc_topology_get_topology_cpuset(T)); }
     else { int id; hwloc_bitmap_foreach_begin(id, hwloc_topology_get_topology_cpuset(T)) if (hv_chance(&R, 1, 3)) hwloc_bitmap_set(term, (unsigned)id); hwloc_bitmap_foreach_end(); char b[16384]; hwloc_bitmap_snprintf(b, sizeof b, term); hv_str_add(&tx, "%s", b); }
     if (op == '~') hwloc_bitmap_andnot(set, set, term); else if (op == 'x') hwloc_bitmap_and(set, set, term); else if (op == '^') hwloc_bitmap_xor(set, set, term); else hwloc_bitmap_or(set, set, term);
